@@ -92,8 +92,18 @@ def run(R):
         tree, search, replace = scenario(g, i)
         tj = cli.tree_json(tree)
         td = al.tree_dict(tree)
-        sr = H.ask({"op": "scan_tree", "tree": tj, "search": core.hx(search), "replace": core.hx(replace),
-                    "options": {"rename_files": False, "rename_dirs": False}})
+        simple = (i % 4 == 3)
+        if simple:
+            # the planner of `replace`, with a line filter: dropped lines are still lines of the file, the preview has to number
+            # the others as the file does
+            sr = H.ask({"op": "simple_plan_tree", "tree": tj, "pattern": core.hx(search), "replacement": core.hx(replace), "regex": False,
+                        "exclude_matching_lines": ["^plain", "é", "^\\t", "^first"][(i // 4) % 4]})
+            if sr.get("ok"):
+                sr["plan"]["paths"] = []
+            stats["replace_planner_filtered"] = stats.get("replace_planner_filtered", 0) + 1
+        else:
+            sr = H.ask({"op": "scan_tree", "tree": tj, "search": core.hx(search), "replace": core.hx(replace),
+                        "options": {"rename_files": False, "rename_dirs": False}})
         if not sr.get("ok"):
             continue
         plan = sr["plan"]
@@ -109,7 +119,7 @@ def run(R):
         # (a) plan JSON: before = current line, after = line with THAT match replaced
         for h in plan["matches"]:
             c = td[h["file"]][2]
-            pr = c03.py_hunk_problems(c, h, True)
+            pr = c03.py_hunk_problems(c, h, not simple)
             stats["line_after_checked"] += 1
             if pr:
                 fails.append({"why": "plan JSON context disagrees with the file: " + "; ".join(pr[:2]), "hunk": h, **ctx})
@@ -127,6 +137,8 @@ def run(R):
             sec = secs.get(f, {}).get(line)
             new_lines = applied_real[f][2].split(b"\n")
             want = new_lines[line - 1] if line - 1 < len(new_lines) else None
+            if simple and want is not None and want.endswith(b"\r"):
+                want = want[:-1]        # the planner of `replace` records lines without their terminator (str::lines)
             stats["diff_lines"] += 1
             stats["multi_hunk_lines"] += len(hs) > 1
             if sec is None:
